@@ -1,21 +1,25 @@
 """Play a (spec, config, history) scenario against the real library and against the reference interpreter.
 
-case = {"spec": ..., "cfg": {"rtc": bool, "allow": bool, "driver": "sync"|"loop"|"threads", "activate": bool},
-        "history": [{"val": {cbid: value}, "ev": str, "args": [...], "kw": {...}, "style": "send"|"method"}],
-        "fault": [cbid, occ] | None, "faults": {step_index: [cbid, occ]} }
+case = {"spec": ..., "cfg": {"rtc": bool, "allow": bool, "driver": "sync"|"loop"|"threads", "activate": bool, "late": [prov...],
+                              "state_field": str, "start_value": <codec>, "model_shape": str},
+        "history": [step...], "faults": {step_index: [cbid, occ]}}
+step = {"op": "send" (default), "val": {cbid: value}, "ev": str, "args": [...], "kw": {...}, "style": ..., "target": ctx name}
+other ops: activate, write, write_invalid, attach, sibling, clone, reconstruct (see the op_* methods).
 """
 from __future__ import annotations
 
 import asyncio
+import copy
 import gc
+import pickle
 import threading
 import warnings
 from inspect import isawaitable
 
-from statemachine.exceptions import InvalidDefinition, TransitionNotAllowed
+from statemachine.exceptions import InvalidDefinition, InvalidStateValue, TransitionNotAllowed
 
 from . import core
-from .core import Boom, ExpBoom, ExpTNA, HarnessError, Interp, Mismatch, exc_matches, render, result_matches
+from .core import Boom, ExpBoom, ExpTNA, HarnessError, Interp, Mismatch, dec, exc_matches, render, result_matches
 from .gen import is_async_spec
 
 
@@ -25,12 +29,61 @@ class Fail(Exception):
         self.kind, self.detail = kind, detail
 
 
-def _call_style(sm, step):
-    ev, a, kw = step["ev"], step.get("args", []), step.get("kw", {})
-    style = step.get("style", "send")
-    if style == "method" and hasattr(type(sm), ev) and ev in [str(e) for e in sm.events]:
-        return getattr(sm, ev)(*a, **kw)
-    return sm.send(ev, *a, **kw)
+class Ctx:
+    """One machine under observation: real instance, its recorder and its reference interpreter."""
+
+    def __init__(self, name, sm, Hh, interp, model):
+        self.name, self.sm, self.H, self.interp, self.model = name, sm, Hh, interp, model
+        self.extra = {}
+
+
+# ------------------------------------------------------------------------------------------ model shapes
+def make_model(shape, base, field, Hh):
+    """Domain model objects of different shapes (C10). `base` is the generated class holding model callbacks (or object)."""
+    base = base or object
+    ns = {"__module__": core.__name__}
+    if shape == "default":
+        return None if base is object else _finish(type(base.__name__ + "_m", (base,), ns)(), Hh)
+    if shape == "plain":
+        cls = type(base.__name__ + "_plain", (base,), ns)
+    elif shape == "preset-none":
+        cls = type(base.__name__ + "_preset", (base,), ns)
+        o = cls()
+        setattr(o, field, None)
+        return _finish(o, Hh)
+    elif shape == "class-default":
+        cls = type(base.__name__ + "_cdef", (base,), dict(ns, **{field: None}))
+    elif shape == "property":
+        def fget(self):
+            return self.__dict__.get("_store")
+
+        def fset(self, v):
+            self.__dict__.setdefault("_writes", []).append(v)
+            self.__dict__["_store"] = v
+
+        cls = type(base.__name__ + "_prop", (base,), dict(ns, **{field: property(fget, fset)}))
+    elif shape == "falsy-list":
+        cls = type(base.__name__ + "_list", (base, list) if base is not object else (list,), ns)
+    elif shape == "len0":
+        cls = type(base.__name__ + "_len0", (base,), dict(ns, __len__=lambda self: 0))
+    elif shape == "bool-false":
+        cls = type(base.__name__ + "_false", (base,), dict(ns, __bool__=lambda self: False))
+    else:
+        raise HarnessError(f"unknown model shape {shape}")
+    cls.__qualname__ = cls.__name__
+    setattr(core.HARNESS_MODULE, cls.__name__, cls)
+    return _finish(cls(), Hh)
+
+
+def _finish(o, Hh):
+    try:
+        o.H = Hh
+    except AttributeError:
+        pass
+    cls = type(o)
+    cls.__qualname__ = cls.__name__
+    setattr(core.HARNESS_MODULE, cls.__name__, cls)
+    return o
 
 
 class Play:
@@ -40,27 +93,40 @@ class Play:
         self.case = case
         self.spec = case["spec"]
         cfg = case.get("cfg", {})
+        self.cfg = cfg
         self.rtc = cfg.get("rtc", True)
         self.allow = cfg.get("allow", False)
         self.driver = cfg.get("driver", "sync")
         self.explicit_activate = cfg.get("activate", False)
         self.late = tuple(cfg.get("late", ()))
+        self.field = cfg.get("state_field", "state")
         self.rendered = rendered or render(self.spec)
-        provs = {c["prov"] for c in self.spec["cbs"]} | {g["prov"] for g in self.spec.get("guards", [])}
         self.is_async = is_async_spec(self.spec)
         self.stats = {}
         self.labels = set()
         self.nontrivial = False
-        self.sm = None
-        self.H = None
-        self.interp = None
-        self.warnings = []
+        self.ctxs = {}
+        self.main = None
+        self.i = -1
+
+    # compatibility accessors (the main context)
+    @property
+    def sm(self):
+        return self.main.sm
+
+    @property
+    def H(self):
+        return self.main.H
+
+    @property
+    def interp(self):
+        return self.main.interp if self.main else None
 
     # ---- one observation/expectation round
-    def check_round(self, obs, run_expected, what, ignore_result=False):
+    def check_round(self, ctx, obs, run_expected, what, ignore_result=False):
         """obs = ("ok", value) | ("exc", exception); run_expected() drives the interpreter over the log."""
-        it = self.interp
-        it.begin(list(self.H.log))
+        it = ctx.interp
+        it.begin(list(ctx.H.log))
         try:
             try:
                 exp = ("ok", run_expected())
@@ -68,7 +134,7 @@ class Play:
                 exp = ("exc", e)
             it.finish()
         except Mismatch as m:
-            m.detail += f" | {what} | log: {self.H.log[max(0, (m.pos or 0) - 6):(m.pos or 0) + 4]!r}"
+            m.detail += f" | {what} | log: {ctx.H.log[max(0, (m.pos or 0) - 6):(m.pos or 0) + 4]!r}"
             raise
         if exp[0] == "ok":
             if obs[0] != "ok":
@@ -78,169 +144,242 @@ class Play:
         else:
             if obs[0] != "exc":
                 raise Fail("missing-exception", f"{what}: returned {obs[1]!r}, expected {type(exp[1]).__name__} {vars(exp[1])}")
-            d = exc_matches(exp[1], obs[1], self.H)
+            d = exc_matches(exp[1], obs[1], ctx.H)
             if d:
                 raise Fail("wrong-exception", f"{what}: {d}")
-        self.check_state(what)
-        self.H.log.clear()
+        self.check_state(ctx, what)
+        ctx.H.log.clear()
         return exp
 
-    def check_state(self, what):
-        it = self.interp
+    def check_state(self, ctx, what):
+        it = ctx.interp
         exp_val = it.svalue(it.state)
-        obs_val = self.sm.current_state_value
+        obs_val = ctx.sm.current_state_value
         if repr(obs_val) != repr(exp_val):
             raise Fail("wrong-state", f"{what}: machine is in {obs_val!r}, expected {exp_val!r}")
         if it.state is not None:
-            sid = self.sm.current_state.id
+            sid = ctx.sm.current_state.id
             if sid != it.sid(it.state):
                 raise Fail("wrong-state", f"{what}: current_state.id is {sid!r}, expected {it.sid(it.state)!r}")
+        self.invariants(ctx, what)
 
-    def construct(self):
+    def invariants(self, ctx, what):
+        pass
+
+    # ---- construction
+    def ctor_kwargs(self):
+        kw = {}
+        if "state_field" in self.cfg:
+            kw["state_field"] = self.field
+        if "start_value" in self.cfg:
+            kw["start_value"] = dec(self.cfg["start_value"])
+        return kw
+
+    def start_index(self):
+        if "start_value" not in self.cfg:
+            return None
+        want = repr(dec(self.cfg["start_value"]))
+        for i, s in enumerate(self.spec["states"]):
+            if repr(dec(s["value"]) if "value" in s else s["id"]) == want:
+                return i
+        raise HarnessError("start_value is not a state value")
+
+    def new_interp(self, providers, is_async, state0=None):
+        it = Interp(self.spec, rtc=self.rtc, allow=self.allow, is_async=is_async, providers=providers, start=self.start_index())
+        if state0 is not None:
+            it.state = state0
+            it.queue.clear()
+        return it
+
+    async def construct(self, name="main", model=None, Hh=None, state0=None):
         r = self.rendered
-        self.H = r.new_H()
-        self.H.depth = bool(self.case.get("depth"))
+        Hh = Hh or r.new_H()
+        Hh.depth = bool(self.case.get("depth"))
         all_provs = {c["prov"] for c in self.spec["cbs"]} | {g["prov"] for g in self.spec.get("guards", [])}
-        self.is_async = is_async_spec(self.spec, all_provs - set(self.late))
-        self.interp = Interp(self.spec, rtc=self.rtc, allow=self.allow, is_async=self.is_async, providers=all_provs - set(self.late))
-        self.set_val(self.case.get("val0", {}))
-        self.set_fault(self.case.get("faults", {}).get("init"))
+        is_async = is_async_spec(self.spec, all_provs - set(self.late))
+        it = self.new_interp(all_provs - set(self.late), is_async, state0)
+        ctx = Ctx(name, None, Hh, it, None)
+        self.ctxs[name] = ctx
+        if name == "main":
+            self.main = ctx
+            self.is_async = is_async
+        self.set_val(ctx, self.case.get("val0", {}))
+        self.set_fault(ctx, None)
+        mk = {}
+        if model is None:
+            shape = self.cfg.get("model_shape", "default")
+            if shape != "default":
+                mk["model"] = make_model(shape, r.provider_classes.get("model"), self.field, Hh)
+                mk["model_given"] = True
+        else:
+            mk["model"] = model
+            mk["model_given"] = True
         try:
-            self.sm, _ = r.make(rtc=self.rtc, allow=self.allow, Hh=self.H)
-            obs = ("ok", None)
+            sm, _ = r.make(rtc=self.rtc, allow=self.allow, Hh=Hh, **mk, **self.ctor_kwargs())
         except (Boom, TransitionNotAllowed) as e:
             # a failure during initial activation escapes from the constructor: there is no machine to go on with.
-            self.H.log[:] = [t for t in self.H.log if t[0] != "G"]
-            it = self.interp
-            it.begin(list(self.H.log))
+            Hh.log[:] = [t for t in Hh.log if t[0] != "G"]
+            it.begin(list(Hh.log))
             try:
                 it.activate()
             except (ExpBoom, ExpTNA) as exp:
-                d = exc_matches(exp, e, self.H)
+                d = exc_matches(exp, e, Hh)
                 if d:
                     raise Fail("wrong-exception", f"construction: {d}")
                 raise Fail("skip", "initial activation fails (as expected)")
             raise Fail("unexpected-exception", f"construction raised {e!r}")
+        ctx.sm = sm
+        ctx.model = mk.get("model") if mk.get("model_given") else Hh.objs.get("model")
         # names that resolve to properties/attributes are read once at registration to see whether they are
         # callable: those reads are not guard evaluations
-        self.H.log[:] = [t for t in self.H.log if t[0] != "G"]
-        if self.is_async:
+        Hh.log[:] = [t for t in Hh.log if t[0] != "G"]
+        if is_async:
             # documented: not activated by the constructor
-            if self.H.log:
-                raise Fail("async-activated-in-constructor", f"records during construction of an async machine: {self.H.log[:3]}")
-            if self.sm.current_state_value is not None:
+            if Hh.log:
+                raise Fail("async-activated-in-constructor", f"records during construction of an async machine: {Hh.log[:3]}")
+            if state0 is None and sm.current_state_value is not None:
                 raise Fail("async-activated-in-constructor", "state set by the constructor of an async machine")
         else:
-            self.check_round(obs, lambda: self.interp.activate(), "construction", ignore_result=True)
+            self.check_round(ctx, ("ok", None), lambda: it.activate(), f"construction of {name}", ignore_result=True)
         for p in self.late:  # late listeners are attached after construction (for a sync machine: after activation)
-            if p in self.H.objs:
-                self.sm.add_listener(self.H.objs[p])
-            self.interp.providers.add(p)
-        self.is_async = self.interp.is_async = is_async_spec(self.spec)
-        self.H.log[:] = [t for t in self.H.log if t[0] != "G"]
+            self.attach(ctx, p)
+        return ctx
 
-    def set_val(self, upd):
+    def attach(self, ctx, p):
+        if p in ctx.H.objs:
+            ctx.sm.add_listener(ctx.H.objs[p])
+        ctx.interp.providers.add(p)
+        ctx.interp.is_async = is_async_spec(self.spec, ctx.interp.providers)
+        if ctx is self.main:
+            self.is_async = ctx.interp.is_async
+        ctx.H.log[:] = [t for t in ctx.H.log if t[0] != "G"]
+
+    def set_val(self, ctx, upd):
         for k, v in upd.items():
-            self.H.val[k] = v
-        self.interp.val = dict(self.H.val)
+            ctx.H.val[k] = v
+            prov = k.split("@")[-1]
+            name = k.split("@")[0]
+            o = ctx.H.objs.get(prov) if hasattr(ctx.H, "objs") else None
+            if o is not None and name in getattr(ctx.H, "attr_guards", ()):  # plain attribute guards live on the object
+                setattr(o, name, v)
+        ctx.interp.val = dict(ctx.H.val)
 
-    def set_fault(self, fault):
+    def set_fault(self, ctx, fault):
         f = tuple(fault) if fault else None
-        self.H.fault = f
-        self.interp.fault = f
-        self.H.no_sender_yields = f is not None
+        ctx.H.fault = f
+        ctx.interp.fault = f
+        ctx.H.no_sender_yields = f is not None
 
-    # ---- drivers
-    def run_sync(self):
-        self.construct()
-        if self.is_async and self.explicit_activate:
-            obs = self._obs(lambda: self.sm.activate_initial_state())
-            self.check_round(obs, lambda: self.interp.activate(), "activate_initial_state()", ignore_result=True)
-        for i, step in enumerate(self.case["history"]):
-            self.set_val(step.get("val", {}))
-            self.set_fault(self.case.get("faults", {}).get(str(i)))
-            obs = self._obs(lambda: _call_style(self.sm, step))
-            self.after_step(i, step, obs)
-
+    # ---- drivers: `call` executes a thunk the way the configured driver does and returns the observation
     def _obs(self, fn):
         try:
             return ("ok", fn())
-        except (Boom, TransitionNotAllowed) as e:
+        except (Boom, TransitionNotAllowed, InvalidDefinition) as e:
             return ("exc", e)
         except RecursionError:
             raise Fail("skip", "recursion limit")
-        except InvalidDefinition as e:
-            return ("exc", e)
 
-    def after_step(self, i, step, obs):
-        before_stats = dict(self.interp.stats)
-        what = f"step {i} send({step['ev']!r})"
-        exp = self.check_round(obs, lambda: self.interp.send(step["ev"], step.get("args", []), step.get("kw", {})), what)
-        self.on_step(i, step, obs, exp, before_stats)
+    async def call(self, fn):
+        if self.driver == "loop":
+            try:
+                r = fn()
+                if isawaitable(r):
+                    r = await r
+                return ("ok", r)
+            except (Boom, TransitionNotAllowed, InvalidDefinition) as e:
+                for _ in range(4):  # let sibling coroutines of a failed group finish (their records are discounted)
+                    await asyncio.sleep(0)
+                return ("exc", e)
+            except RecursionError:
+                raise Fail("skip", "recursion limit")
+        if self.driver == "threads":
+            box = {}
+            t = threading.Thread(target=lambda: box.update(obs=self._obs(fn)))
+            t.start()
+            t.join(60)
+            if t.is_alive():
+                raise HarnessError("driver thread did not finish")
+            return box["obs"]
+        return self._obs(fn)
+
+    # ---- ops
+    def trigger_fn(self, ctx, step):
+        ev, a, kw = step["ev"], step.get("args", []), step.get("kw", {})
+        sm = ctx.sm
+        style = step.get("style", "send")
+        declared = ev in [str(e) for e in sm.events]
+        if style == "method" and declared:
+            return lambda: getattr(sm, ev)(*a, **kw)
+        if style == "events-item" and declared:
+            return lambda: [e for e in sm.events if e == ev][0](*a, **kw)
+        if style == "allowed-item" and ev in [str(e) for e in self.safe_allowed(sm)]:
+            return lambda: [e for e in sm.allowed_events if e == ev][0](*a, **kw)
+        if style == "bound" and declared and "bound" in ctx.extra:
+            return lambda: getattr(ctx.extra["bound"], ev)(*a, **kw)
+        return lambda: sm.send(ev, *a, **kw)
+
+    @staticmethod
+    def safe_allowed(sm):
+        try:
+            return sm.allowed_events
+        except InvalidStateValue:
+            return []
+
+    async def op_send(self, step):
+        ctx = self.ctxs[step.get("target", "main")]
+        self.set_val(ctx, step.get("val", {}))
+        self.set_fault(ctx, self.case.get("faults", {}).get(str(self.i)))
+        self._log = None
+        obs = await self.call(self.trigger_fn(ctx, step))
+        self.after_step(self.i, step, obs, ctx)
+
+    def after_step(self, i, step, obs, ctx=None):
+        ctx = ctx or self.main
+        before_stats = dict(ctx.interp.stats)
+        what = f"step {i} {ctx.name}.send({step['ev']!r})"
+        exp = self.check_round(ctx, obs, lambda: ctx.interp.send(step["ev"], step.get("args", []), step.get("kw", {})), what)
+        if ctx is self.main:
+            self.on_step(i, step, obs, exp, before_stats)
 
     def on_step(self, i, step, obs, exp, before_stats):
         pass
 
-    async def run_loop(self):
-        self.construct()
-        if self.is_async and self.explicit_activate:
-            obs = await self._aobs(lambda: self.sm.activate_initial_state())
-            self.check_round(obs, lambda: self.interp.activate(), "activate_initial_state()", ignore_result=True)
+    async def op_activate(self, step):
+        ctx = self.ctxs[step.get("target", "main")]
+        obs = await self.call(lambda: ctx.sm.activate_initial_state())
+        self.check_round(ctx, obs, lambda: ctx.interp.activate(), f"step {self.i} activate_initial_state()", ignore_result=True)
+
+    async def op_attach(self, step):
+        ctx = self.ctxs[step.get("target", "main")]
+        self.attach(ctx, step["prov"])
+        self.labels.add("attach:" + ("repeat" if step.get("repeat") else "first"))
+
+    async def body(self):
+        await self.construct()
+        if self.main.interp.is_async and self.explicit_activate:
+            await self.op_activate({})
         for i, step in enumerate(self.case["history"]):
-            self.set_val(step.get("val", {}))
-            self.set_fault(self.case.get("faults", {}).get(str(i)))
-            obs = await self._aobs(lambda: _call_style(self.sm, step))
-            if obs[0] == "exc":
-                for _ in range(4):  # let sibling coroutines of a failed group finish (their records are discounted)
-                    await asyncio.sleep(0)
-            self.after_step(i, step, obs)
+            self.i = i
+            await getattr(self, "op_" + step.get("op", "send"))(step)
+        await self.finale()
 
-    async def _aobs(self, fn):
-        try:
-            r = fn()
-            if isawaitable(r):
-                r = await r
-            return ("ok", r)
-        except (Boom, TransitionNotAllowed) as e:
-            return ("exc", e)
-        except InvalidDefinition as e:
-            return ("exc", e)
-
-    def run_threads(self):
-        """Every step is issued from a fresh thread that has no event loop."""
-        self.construct()
-        if self.is_async and self.explicit_activate:
-            box = {}
-            t = threading.Thread(target=lambda: box.update(obs=self._obs(lambda: self.sm.activate_initial_state())))
-            t.start()
-            t.join(30)
-            if t.is_alive():
-                raise HarnessError("driver thread did not finish")
-            self.check_round(box["obs"], lambda: self.interp.activate(), "activate_initial_state()", ignore_result=True)
-        for i, step in enumerate(self.case["history"]):
-            self.set_val(step.get("val", {}))
-            self.set_fault(self.case.get("faults", {}).get(str(i)))
-            box = {}
-
-            def body():
-                box["obs"] = self._obs(lambda: _call_style(self.sm, step))
-
-            t = threading.Thread(target=body)
-            t.start()
-            t.join(30)
-            if t.is_alive():
-                raise HarnessError("driver thread did not finish")
-            self.after_step(i, step, box["obs"])
+    async def finale(self):
+        pass
 
     def run(self):
         with warnings.catch_warnings(record=True) as w:
             warnings.simplefilter("always")
             if self.driver == "loop":
-                asyncio.run(self.run_loop())
-            elif self.driver == "threads":
-                self.run_threads()
+                asyncio.run(self.body())
             else:
-                self.run_sync()
+                coro = self.body()
+                try:
+                    coro.send(None)
+                except StopIteration:
+                    pass
+                else:
+                    coro.close()
+                    raise HarnessError("scenario body suspended outside an event loop")
             gc.collect()
         bad = [x for x in w if issubclass(x.category, RuntimeWarning) and "never awaited" in str(x.message)]
         if bad:
@@ -292,7 +431,8 @@ def play_case(case, play_cls=Play, pid="C00"):
 
 
 def dispose(rendered):
-    for name in [rendered.cls.__name__] + [c.__name__ for c in rendered.provider_classes.values()]:
+    prefix = rendered.cls.__name__
+    for name in [n for n in vars(core.HARNESS_MODULE) if n == prefix or n.startswith(prefix + "_")]:
         try:
             delattr(core.HARNESS_MODULE, name)
         except AttributeError:
